@@ -197,6 +197,50 @@ func c02Check(c *vlib.Case, run *vlib.Run, env *pmmvEnv, cfg *pmmvConfig, r *vli
 			}
 		}
 		run.Count("handover_drains", 1)
+
+		// A bring-up that fails part-way and is tried again (an in-package caller could; the kernel treats a
+		// failed Init as fatal). The early allocator has handed out frames during the first attempt - some of
+		// them back page tables by now - so the second attempt must not hand out any of them again, and after
+		// the hand-over none of the frames of either attempt may come out of the main allocator.
+		if len(env.maps) >= 1 && r.Chance(1, 5) {
+			failAt := r.Intn(len(env.maps))
+			env.install(cfg)
+			env.failMapAt = failAt
+			e1, pv1, _ := env.init(cfg)
+			if pv1 != nil || e1 == nil {
+				break
+			}
+			first := env.earlySeq()
+			env.failMapAt = -1
+			env.allowSecond = true
+			e2, pv2, _ := env.init(cfg)
+			run.Count("bring_ups_retried_after_a_refused_mapping", 1)
+			all := env.earlySeq()
+			seen := map[uint64]bool{}
+			for _, fr := range first {
+				seen[fr] = true
+			}
+			for i := len(first); i < len(all); i++ {
+				if seen[all[i]] {
+					c.Violationf("boot-frame-handed-out-twice-across-a-retry", "the first bring-up (mapping %d refused) consumed early frames %#x; the second attempt was handed frame %#x again", failAt, first, all[i])
+					return false, nil
+				}
+				seen[all[i]] = true
+			}
+			if pv2 == nil && e2 == nil {
+				for n := uint64(0); n < m.RAM+2; n++ {
+					f, err := mm.AllocFrame()
+					if err != nil {
+						break
+					}
+					if seen[uint64(f)] {
+						c.Violationf("handover-early-frame-not-reserved", "frame %#x was consumed by the early allocator during a bring-up that was retried (first attempt %#x, second attempt %#x) but the main allocator hands it out", uint64(f), first, all[len(first):])
+						return false, nil
+					}
+				}
+				run.Count("handover_drains_after_a_retry", 1)
+			}
+		}
 	}
 
 	// evidence about the layout
@@ -239,7 +283,7 @@ func c02SeqAt(seq []c02Step, i int) string {
 func TestVerifC02(t *testing.T) {
 	run := vlib.Start(t, "C02")
 	defer run.Finish()
-	run.SetRule("case = generated memory map + kernel placement (generator shared with C01: 1-8 regions, all types, aligned/unaligned, sub-page and zero-whole-frame regions, adjacent regions, first region at frame 0; kernel at start/middle/end of a region, covering it, leaving exactly one frame); the early allocator is drained directly, replayed for k in {0,1,2,total-1,total,total+1,2 random} from a reset state, then Init runs and the frames seen at the map seam are compared with the sequence; non-trivial = the returned sequence spans >=2 available regions and the kernel touches the start or the end of its region; distinct = fingerprint of (memory map, kernel placement)")
+	run.SetRule("case = generated memory map + kernel placement (generator shared with C01: 1-8 regions, all types, aligned/unaligned, sub-page and zero-whole-frame regions, adjacent regions, first region at frame 0; kernel at start/middle/end of a region, covering it, leaving exactly one frame); the early allocator is drained directly, replayed for k in {0,1,2,total-1,total,total+1,2 random} from a reset state, then Init runs and the frames seen at the map seam are compared with the sequence; one case in five repeats the bring-up with one mapping refused and retries it on the same allocators (no frame twice across the attempts, none of them allocatable afterwards); non-trivial = the returned sequence spans >=2 available regions and the kernel touches the start or the end of its region; distinct = fingerprint of (memory map, kernel placement)")
 	run.Assume("every frame pmm.Init takes from the early allocator is passed to mapFn (true for setupPoolBitmaps as written): the frames seen at that seam are taken to be the frames consumed during boot")
 	run.Assume("mapFn and reserveRegionFn are stubbed; regions are sorted and non-overlapping, the kernel lies inside one available region with a page-aligned start (the property's quantifier)")
 	run.Assume("completeness (every frame of RAM \\ K is returned) is not demanded: skipped frames and early out-of-memory reports are counted only")
